@@ -58,13 +58,14 @@ type caseT struct {
 	Kind      string `json:"kind"`    // "server" (gopcua server channel receives requests) | "client"
 	Policy    string `json:"policy"`  // "" = None (reference: pkg/refnone), else a secured policy URI (reference: pkg/refcodec)
 	Encrypt   bool   `json:"encrypt"` // secured policy: SignAndEncrypt instead of Sign
-	Buf       uint32 `json:"buf"`  // negotiated buffer size (both directions)
+	Buf       uint32 `json:"buf"`     // negotiated buffer size (both directions)
 	StartSeq  uint32 `json:"start_seq"`
 	WrapAfter uint32 `json:"wrap_after"`
 	WrapTo    uint32 `json:"wrap_to"`
 	ReqSeed   uint32 `json:"req_seed"` // client kind: RequestIDSeed of the gopcua client
 	Msgs      []msgT `json:"msgs"`
-	Order     []int  `json:"order"` // emission schedule: index of the message whose next chunk is sent
+	Order     []int  `json:"order"`      // emission schedule: index of the message whose next chunk is sent
+	MaxChunks uint32 `json:"max_chunks"` // server kind: the receiver's MaxChunkCount (0 = 512)
 }
 
 func pattern(n, fill int) []byte {
@@ -246,7 +247,7 @@ func plan(c caseT) (*planT, error) {
 	if c.Policy != "" && (refcodec.PolicyByURI(c.Policy) == nil || !refcodec.PolicyByURI(c.Policy).Secure()) {
 		return nil, fmt.Errorf("policy %q", c.Policy)
 	}
-	if len(c.Msgs) < 1 || len(c.Msgs) > 8 {
+	if len(c.Msgs) < 1 || len(c.Msgs) > 16 {
 		return nil, fmt.Errorf("%d messages", len(c.Msgs))
 	}
 	if c.WrapAfter < refnone.WrapMin || c.WrapTo > 1023 {
@@ -423,6 +424,15 @@ func genCase(t *rapid.T) caseT {
 	}
 	max := maxChunkBody(c)
 	n := rapid.IntRange(1, 8).Draw(t, "nmsgs")
+	// abort-heavy histories against a receiver with a small chunk limit: many
+	// partial messages are aborted one after the other, so that chunks which
+	// were buffered and then cancelled add up to several times the limit; a
+	// conforming stream never has more than MaxChunks chunks in flight
+	abortHeavy := c.Kind == "server" && rapid.IntRange(0, 4).Draw(t, "abortHeavy") == 0
+	if abortHeavy {
+		c.MaxChunks = uint32(rapid.IntRange(6, 16).Draw(t, "maxChunks"))
+		n = rapid.IntRange(6, 16).Draw(t, "nmsgsHeavy")
+	}
 	usedIDs := map[uint32]bool{}
 	nchunks := make([]int, n)
 	total := 0
@@ -457,7 +467,7 @@ func genCase(t *rapid.T) caseT {
 			usedIDs[m.ReqID] = true
 		}
 		b := body(c.Kind, m)
-		for len(b) > 56*max || len(b) > 1<<20 {
+		for len(b) > 56*max || len(b) > 1<<20 || (abortHeavy && len(b) > (int(c.MaxChunks)-2)*max) {
 			// keep a message within 64 chunks (8 interleaved messages stay within
 			// MaxChunkCount 512 in total) and 1 MiB
 			m.Size = m.Size / 2
@@ -515,9 +525,21 @@ func genCase(t *rapid.T) caseT {
 				cuts = append(cuts, off)
 			}
 		}
+		if abortHeavy && len(b) > int(c.MaxChunks) {
+			// 2 .. MaxChunks-2 pieces, none longer than a chunk
+			j := rapid.IntRange(2, int(c.MaxChunks)-2).Draw(t, "pieces")
+			if len(b) > j*max {
+				j = (len(b) + max - 1) / max
+			}
+			cuts = nil
+			for k := 1; k < j; k++ {
+				cuts = append(cuts, k*len(b)/j)
+			}
+		}
 		m.Cuts = cuts
 		npieces := len(cuts) + 1
-		if rapid.IntRange(0, 5).Draw(t, "abort?") == 0 {
+		abortDraw := rapid.IntRange(0, 5).Draw(t, "abort?")
+		if abortDraw == 0 || (abortHeavy && abortDraw < 4) {
 			m.Abort = true
 			m.AbortAfter = rapid.IntRange(0, npieces).Draw(t, "abortAfter")
 			m.Status = uint32(rapid.SampledFrom([]ua.StatusCode{ua.StatusBadResponseTooLarge, ua.StatusBadRequestTooLarge, ua.StatusBadTCPMessageTooLarge, ua.StatusBadEncodingLimitsExceeded, ua.StatusBadInternalError, 0x80ab0000}).Draw(t, "status"))
@@ -535,6 +557,9 @@ func genCase(t *rapid.T) caseT {
 	}
 	// emission order: messages start in index order; up to `window` messages are in flight
 	window := rapid.SampledFrom([]int{1, 1, 2, 3, 4, 8}).Draw(t, "window")
+	if abortHeavy {
+		window = 1
+	}
 	left := append([]int(nil), nchunks...)
 	for {
 		var cand []int
@@ -616,6 +641,9 @@ func runServer(c caseT, p *planT) (string, error) {
 	ctx, cancel := context.WithCancel(context.Background())
 	defer cancel()
 	ack := &uacp.Acknowledge{ReceiveBufSize: c.Buf, SendBufSize: c.Buf, MaxChunkCount: 512, MaxMessageSize: 4 << 20}
+	if c.MaxChunks != 0 {
+		ack.MaxChunkCount = c.MaxChunks
+	}
 	ln, err := uacp.Listen(ctx, "opc.tcp://127.0.0.1:0", ack)
 	if err != nil {
 		return "", fmt.Errorf("listen: %w", err)
@@ -1073,6 +1101,18 @@ func TestReassembly(t *testing.T) {
 		}
 		b, _ := json.Marshal(c)
 		rec.Case(p.nontriv, ev.Hash(b), p.classes...)
+		if c.MaxChunks != 0 {
+			aborted := 0
+			for _, m := range c.Msgs {
+				if m.Abort {
+					aborted += m.AbortAfter
+				}
+			}
+			rec.Class("abort-heavy(small MaxChunkCount)")
+			if uint32(aborted) > c.MaxChunks {
+				rec.Class("abort-heavy:aborted chunks exceed MaxChunkCount in total")
+			}
+		}
 		if p.nontriv && rec.WantSample() {
 			rec.Sample(sampleOf(c))
 		}
